@@ -40,8 +40,8 @@ instance (s : String) : Decidable (looksLikeGoType s) := by unfold looksLikeGoTy
 /-! ## 1. Which name goes out -/
 
 /-- An `*RpcError` is named by its own `Type`, whatever it is. -/
-theorem rpc_names_its_type (env : Env) (ty msg kind : String) (debug : Bool) :
-    (writeErrorBatch env (.rpc ty msg kind) debug).extra.exceptionType = ty := rfl
+theorem rpc_names_its_type (env : Env) (ty msg kind tb rid : String) (debug : Bool) :
+    (writeErrorBatch env (.rpc ty msg kind tb rid) debug).extra.exceptionType = ty := rfl
 
 /-- A typed framework error is named by its wire name. -/
 theorem framework_wire_name (env : Env) (e : GoErr) (n : String) (debug : Bool)
@@ -86,12 +86,12 @@ theorem wireType_mem (e : GoErr) (hr : ¬ IsRpc e) : wireType e ∈ wireNames :=
 `*RpcError`'s `Type`, or one of the five fixed framework names. -/
 theorem exception_type_classified (env : Env) (site : Site) (o : Outcome) (debug : Bool) :
     let t := (exceptionBatch env site o debug).extra.exceptionType
-    (∃ ty msg kind, o = .ret (.rpc ty msg kind) ∧ t = ty) ∨ t ∈ wireNames := by
+    (∃ ty msg kind tb rid, o = .ret (.rpc ty msg kind tb rid) ∧ t = ty) ∨ t ∈ wireNames := by
   cases o with
   | ret e =>
     by_cases hr : IsRpc e
     · cases e with
-      | rpc ty msg kind => exact Or.inl ⟨ty, msg, kind, rfl, by cases site <;> rfl⟩
+      | rpc ty msg kind tb rid => exact Or.inl ⟨ty, msg, kind, tb, rid, rfl, by cases site <;> rfl⟩
       | _ => exact absurd hr (by simp [IsRpc])
     · refine Or.inr ?_
       have : raised site (.ret e) = e := by cases site <;> rfl
@@ -104,10 +104,10 @@ theorem exception_type_classified (env : Env) (site : Site) (o : Outcome) (debug
 
 example :
     (exceptionBatch ⟨"goroutine 1", []⟩ .exchange
-      (.ret (.wrapped "ctx: " (.rpc "ValueError" "bad" "k"))) true).extra.exceptionType
+      (.ret (.wrapped "ctx: " (.rpc "ValueError" "bad" "k" "tb" "r1"))) true).extra.exceptionType
       = "RuntimeError" := by decide
 example :
-    (exceptionBatch ⟨"", []⟩ .unary (.ret (.rpc "ValueError" "bad" "k")) false).extra.exceptionType
+    (exceptionBatch ⟨"", []⟩ .unary (.ret (.rpc "ValueError" "bad" "k" "" "")) false).extra.exceptionType
       = "ValueError" := by decide
 example : frameworkName (.sessionLost "x") = some "SessionLostError" ∧
     ¬ IsRpc (.custom "*main.myErr" "boom" none (some "KeyError")) ∧
@@ -182,8 +182,8 @@ theorem kind_only_when_set (env : Env) (e : GoErr) (debug : Bool) (k : String) :
 
 /-- An `*RpcError`'s kind is its `Kind` field (omitted when empty); the framework errors have
 fixed kinds; a cap refusal, plain, wrapped and joined errors have none. -/
-theorem kind_table (ty msg kind method reason pfx : String) (a b : GoErr) :
-    errorKind (.rpc ty msg kind) = (if kind ≠ "" then some kind else none) ∧
+theorem kind_table (ty msg kind tb rid method reason pfx : String) (a b : GoErr) :
+    errorKind (.rpc ty msg kind tb rid) = (if kind ≠ "" then some kind else none) ∧
     errorKind (.notImpl method msg) = some "MethodNotImplementedError" ∧
     errorKind (.protoVersion msg) = some "protocol_version_mismatch" ∧
     errorKind (.sessionLost reason) = some "session_lost" ∧
@@ -203,6 +203,24 @@ theorem debug_gates_traceback (env : Env) (e : GoErr) :
   simp [writeErrorBatch, buildErrorExtra, maxFrames]
   omega
 
+/-- An `*RpcError`'s own `Traceback` and `RequestID` fields (a relayed upstream error carries the
+upstream's stack there) never reach the envelope: with debug off the batch has no traceback and
+no frames whatever the value holds, with debug on they are this process's own; the whole
+envelope is the one of the same error with those fields empty. -/
+theorem rpc_own_traceback_never_carried (env : Env) (site : Site) (ty msg kind tb rid : String)
+    (debug : Bool) :
+    exceptionBatch env site (.ret (.rpc ty msg kind tb rid)) debug =
+      exceptionBatch env site (.ret (.rpc ty msg kind "" "")) debug ∧
+    (exceptionBatch env site (.ret (.rpc ty msg kind tb rid)) false).extra.traceback = "" ∧
+    (exceptionBatch env site (.ret (.rpc ty msg kind tb rid)) false).extra.frames = [] ∧
+    (exceptionBatch env site (.ret (.rpc ty msg kind tb rid)) true).extra.traceback = env.stack := by
+  cases site <;> exact ⟨rfl, rfl, rfl, rfl⟩
+
+example :
+    (exceptionBatch ⟨"goroutine 1", [⟨"f.go", 1, "f"⟩]⟩ .produce
+      (.ret (.rpc "ValueError" "relayed" "" "goroutine 99 [running]: upstream secret" "req-7")) false).extra
+    = ⟨"ValueError", "ValueError: relayed", "", []⟩ := by decide
+
 /-- The debug setting changes nothing but traceback and frames. -/
 theorem debug_only_affects_trace (env : Env) (e : GoErr) :
     let a := writeErrorBatch env e true
@@ -214,7 +232,7 @@ theorem debug_only_affects_trace (env : Env) (e : GoErr) :
 
 example :
     writeErrorBatch ⟨"goroutine 7 [running]:", [⟨"a.go", 1, "f"⟩, ⟨"b.go", 2, "g"⟩]⟩
-      (.joined (.rpc "ValueError" "v" "kk") (.plain "p")) true
+      (.joined (.rpc "ValueError" "v" "kk" "" "") (.plain "p")) true
     = { level := "EXCEPTION", logMessage := "ValueError: v\np",
         extra := { exceptionType := "RuntimeError", exceptionMessage := "ValueError: v\np",
                    traceback := "goroutine 7 [running]:",
@@ -222,6 +240,6 @@ example :
         errorKind := none } := by decide
 example : errorKind (.custom "main.kindErr" "m" (some "my_kind") none) = some "my_kind" ∧
     errorKind (.custom "main.kindErr" "m" (some "") none) = none ∧
-    errorKind (.rpc "T" "m" "") = none := by decide
+    errorKind (.rpc "T" "m" "" "upstream traceback" "r") = none := by decide
 
 end Vgi.Props.C05
